@@ -38,7 +38,7 @@ REGISTRY = {
 def setup() -> int:
     """Parse every specification with SANY (offline)."""
     rc = 0
-    files = sorted(SPEC.glob("*.tla")) + sorted(LIB.glob("*.tla"))
+    files = sorted(SPEC.glob("*.tla")) + sorted(LIB.glob("*.tla")) + sorted((SPEC / "lemmas").glob("*.tla"))
     for f in files:
         r = subprocess.run(["java", f"-DTLA-Library={LIB}", "-cp", JAR, "tla2sany.SANY", str(f)],
                            cwd=str(f.parent), capture_output=True, text=True)
